@@ -59,7 +59,7 @@ def main():
         r = {"own": run_check(prop)}
         for p in EXTRA.get(sid, []):
             r[p] = run_check(p)
-        if r["own"]["rc"] == 0 and not any(v["rc"] == 1 for k, v in r.items() if k != "own"):
+        if not os.environ.get("OWN_ONLY") and r["own"]["rc"] == 0 and not any(v["rc"] == 1 for k, v in r.items() if k != "own"):
             # missed by its own check: does any other check see it?
             for p in ALL:
                 if p != prop and p not in r:
